@@ -36,8 +36,10 @@ Section PrintMain.
     /\ Forall (fun d => Forall (fun nv => of_lexeme NM (f2 (snd nv)) = Some (reread NM (snd nv))
                                           /\ f2 (reread NM (snd nv)) = f2 (snd nv)) (ln_elems NM d)) L.
   Proof.
-    intros HL HF. pose proof (events_print_output NM FS c L HL HF) as E. split; [exact E|]. split.
-    - unfold read_log. rewrite (scan_print_output NM FS c L HL HF). cbn [snd]. rewrite E.
+    intros HL HF.
+    assert (HP : Forall (day_printable NM c) L) by (eapply Forall_impl; [|exact HF]; apply day_ok_printable).
+    pose proof (events_print_output NM FS c L HL HP) as E. split; [exact E|]. split.
+    - unfold read_log. rewrite (scan_print_output NM FS c L HL HP). cbn [snd]. rewrite E.
       apply lognodes_of_printed, HF.
     - apply Forall_forall. intros d _. apply Forall_forall. intros nv _. apply (reread_spec NM FS).
   Qed.
